@@ -16,7 +16,7 @@ RULE = ("T: the live module tables (core.MESSAGE_TYPE_TO_PROTO, connection.MESSA
         "descriptor / observed traffic type was compared; distinct = (obligation, message or type)")
 ASSUMPTIONS = [
     "api.proto text is the source of truth (parsed by vf.protoparse, ~200 lines, cross-checked against the descriptors here)",
-    "public methods without a recipe are listed as unswept in the evidence",
+    "public methods without a recipe (added after the recipe table was written) are called with arguments guessed from their signature; what cannot be called is listed as unswept in the evidence",
     "engine S doubles as in C05",
 ]
 BUDGET_S = {"quick": 200, "thorough": 900}
@@ -134,6 +134,7 @@ def direction(ctx: Ctx, framing: str, api: tuple[int, int], silent: bool = False
         res.inconclusive.append(f"api sweep: {o.get('error') or o['harness_errors'][0][-300:]}")
         return
     res.notes.setdefault("unswept_public_methods", []).extend(o["unswept"])
+    res.notes.setdefault("public_methods_without_recipe_called_with_guessed_arguments", []).extend(o.get("auto_swept", []))
     res.count("S/methods_swept", len(o["methods"]))
     res.count("S/methods_unswept", len(o["unswept"]))
     for name, m in o["methods"].items():
